@@ -601,6 +601,10 @@ func c07Sentinels() []*genCase {
 	add("error named Error", &Desc{Name: "org.example.errnamed", Mems: []Mem{m0(), {Kind: 'e', Name: "Error", T: strct(Fld{"why", base(kString)})}, {Kind: 'e', Name: "Errors"}}}, 0)
 	add("method named Error", &Desc{Name: "org.example.errmethod", Mems: []Mem{{Kind: 'm', Name: "Error", In: strct(Fld{"a", base(kInt)}), Out: strct(Fld{"b", base(kInt)})}, {Kind: 'e', Name: "Failed", T: strct(Fld{"why", base(kString)})},
 		{Kind: 'm', Name: "MethodNotImplemented", In: strct(), Out: strct(Fld{"x", base(kInt)}, Fld{"y", base(kInt)})}, {Kind: 'm', Name: "InvalidParameter", In: strct(Fld{"p", base(kInt)}), Out: strct()}}}, 0)
+	add("interface named like an identifier the import patcher looks for", &Desc{Name: "fmt.Sprintf", Mems: []Mem{{Kind: 'm', Name: "M", In: strct(), Out: strct()}}}, 0)
+	add("interface named json.RawMessage without any object type", &Desc{Name: "json.RawMessage", Mems: []Mem{{Kind: 'm', Name: "M", In: strct(Fld{"a", base(kInt)}), Out: strct()}, {Kind: 'e', Name: "E", T: strct(Fld{"why", base(kString)})}}}, 0)
+	add("interface named context.Context, enum output", &Desc{Name: "context.Context", Mems: []Mem{{Kind: 'm', Name: "M", In: strct(), Out: strct(Fld{"e", enum("a", "b")})}}}, 0)
+	add("doc comments containing the generator's own markers", &Desc{Name: "org.example.markers", Doc: []string{"uses @IMPORTS@ in the interface doc", "and @PACKAGE@ @NAME@"}, Mems: []Mem{{Kind: 'm', Name: "M", In: strct(), Out: strct(), Doc: []string{"@IMPORTS@"}}, {Kind: 'e', Name: "E", T: strct(Fld{"why", base(kString)}), Doc: []string{"import ( \"fmt\" )"}}}}, 0)
 	add("recursive alias through containers", &Desc{Name: "org.example.recursive", Mems: []Mem{{Kind: 't', Name: "Tree", T: strct(Fld{"kids", wrap(kArray, alias("Tree"))}, Fld{"next", wrap(kMaybe, alias("Tree"))}, Fld{"byname", wrap(kMap, alias("Tree"))})}, {Kind: 'm', Name: "Walk", In: strct(Fld{"t", alias("Tree")}), Out: strct(Fld{"t", wrap(kMaybe, alias("Tree"))})}}}, 0)
 	add("object everywhere", &Desc{Name: "org.example.objects", Mems: []Mem{{Kind: 't', Name: "O", T: strct(Fld{"o", base(kObject)})}, {Kind: 'm', Name: "M", In: strct(Fld{"a", base(kObject)}, Fld{"b", wrap(kArray, base(kObject))}, Fld{"c", wrap(kMaybe, base(kObject))}), Out: strct(Fld{"r", wrap(kMap, base(kObject))}, Fld{"s", alias("O")})}, {Kind: 'e', Name: "E", T: strct(Fld{"detail", base(kObject)})}}}, 0)
 	add("alias of object and of optional object", &Desc{Name: "org.example.objalias", Mems: []Mem{{Kind: 't', Name: "Raw", T: base(kObject)}, {Kind: 't', Name: "MaybeRaw", T: wrap(kMaybe, base(kObject))}, {Kind: 't', Name: "MaybeAl", T: wrap(kMaybe, alias("Raw"))},
